@@ -1213,6 +1213,11 @@ class Client:
             if self.ignore_exc:
                 return {}
             raise
+        except BaseException:
+            # KeyboardInterrupt, SystemExit, gevent timeouts: the exchange was
+            # abandoned half-way, the connection must not be reused.
+            self.close()
+            raise
 
     def _store_cmd(
         self,
@@ -1296,7 +1301,9 @@ class Client:
                 else:
                     raise MemcacheUnknownError(line[:32])
             return results
-        except Exception:
+        except BaseException:
+            # Also KeyboardInterrupt, SystemExit, gevent timeouts: the exchange
+            # was abandoned half-way, the connection must not be reused.
             self.close()
             raise
 
@@ -1340,7 +1347,9 @@ class Client:
                 results.append(line)
             return results
 
-        except Exception:
+        except BaseException:
+            # Also KeyboardInterrupt, SystemExit, gevent timeouts: the exchange
+            # was abandoned half-way, the connection must not be reused.
             self.close()
             raise
 
